@@ -404,7 +404,7 @@ func (r *rw) needs(n ast.Node) bool {
 			return true
 		}
 	case *ast.CallExpr:
-		if isCallTo(x, "context", "WithCancel") {
+		if isCallTo(x, "context", "WithCancel") || isCallTo(x, "context", "AfterFunc") {
 			return true
 		}
 	case *ast.UnaryExpr:
@@ -583,10 +583,13 @@ func (r *rw) rewrite(n ast.Node) string {
 		}
 		return "defer func() { vsched.Yield(" + q("close "+r.site(x)) + "); " + r.emitChildren(x.Call) + " }()"
 
-	case *ast.CallExpr: // context.WithCancel
+	case *ast.CallExpr: // context.WithCancel, context.AfterFunc
 		var args []string
 		for _, a := range x.Args {
 			args = append(args, r.emit(a))
+		}
+		if isCallTo(x, "context", "AfterFunc") {
+			return "vsched.AfterFunc(" + strings.Join(args, ", ") + ")"
 		}
 		return "vsched.WithCancel(" + strings.Join(args, ", ") + ")"
 
